@@ -43,15 +43,22 @@ Fixpoint path_eqb (a b : list nat) : bool :=
   | _, _ => false
   end.
 
+(* Go's selector rule (and encoding/json's): a field of the struct itself wins over a field promoted from an
+   embedded struct; among the embedded structs the first (in declaration order) that has it *)
+Fixpoint spec_find_own (k : str) (i : nat) (fl : list field) : option (list nat) :=
+  match fl with
+  | [] => None
+  | fld :: r => if str_eqb (key_of fld) k then Some [i] else spec_find_own k (S i) r
+  end.
+
 Fixpoint spec_find_fields (rec_ : str -> option (list nat)) (k : str) (i : nat) (fl : list field) : option (list nat) :=
   match fl with
   | [] => None
   | fld :: r =>
-    if str_eqb (key_of fld) k then Some [i]
-    else match (if f_emb fld then match f_type fld with TStruct s' => rec_ s' | _ => None end else None) with
-         | Some p => Some (i :: p)
-         | None => spec_find_fields rec_ k (S i) r
-         end
+    match (if f_emb fld then match f_type fld with TStruct s' => rec_ s' | _ => None end else None) with
+    | Some p => Some (i :: p)
+    | None => spec_find_fields rec_ k (S i) r
+    end
   end.
 
 Fixpoint spec_find (fuel : nat) (te : tenv) (s : str) (k : str) : option (list nat) :=
@@ -59,7 +66,10 @@ Fixpoint spec_find (fuel : nat) (te : tenv) (s : str) (k : str) : option (list n
   | O => None
   | S f => match find_struct te s with
            | None => None
-           | Some d => spec_find_fields (fun s' => spec_find f te s' k) k O (s_fields d)
+           | Some d => match spec_find_own k O (s_fields d) with
+                       | Some p => Some p
+                       | None => spec_find_fields (fun s' => spec_find f te s' k) k O (s_fields d)
+                       end
            end
   end.
 
@@ -123,10 +133,36 @@ Fixpoint denote (fuel : nat) (te : tenv) (ty : gotype) (s : sx) : sres dval :=
   | O => SFuel
   | S f =>
     (* the struct value of type sn that record fields fs (of a record of type sn) denote *)
+    (* the entries of a record of struct type sn as assignments (path, value); an entry that gives a struct-valued
+       field (an embedded struct under its own key, or a plain struct field) a record of that struct's type is
+       replaced by that record's own entries below the field: (snoopy id:3 plane:(plane speed:5)) assigns
+       Plane.ID and Plane.Speed *)
+    let expand :=
+        (fix expand (g : nat) (sn : str) (base : list nat) (fs : list (str * sx)) {struct g}
+           : sres (list (list nat * sx)) :=
+           match g with
+           | O => SFuel
+           | S g' =>
+             sdo parts <- smap (fun kv : str * sx =>
+                 match designates f te sn (fst kv) with
+                 | None => SErr 1
+                 | Some q =>
+                   match type_at te (TStruct sn) q, snd kv with
+                   | Some (TStruct s'), SRec _ tn' fs' =>
+                     match find_reg te tn' with
+                     | Some d' => if str_eqb (s_name d') s' then expand g' s' (base ++ q) fs'
+                                  else SOk [(base ++ q, snd kv)]
+                     | None => SOk [(base ++ q, snd kv)]
+                     end
+                   | _, _ => SOk [(base ++ q, snd kv)]
+                   end
+                 end) fs;
+             SOk (concat parts)
+           end) in
+    (* the struct value of type sn that record fields fs (of a record of type sn) denote *)
     let drecord (sn : str) (fs : list (str * sx)) : sres dval :=
-        let ps := map (fun kv => designates f te sn (fst kv)) fs in
-        if existsb (fun o => match o with None => true | Some _ => false end) ps then SErr 1
-        else if negb (paths_independent (flat_map (fun o => match o with Some p => [p] | None => [] end) ps)) then SSilent
+        sdo leaves <- expand f sn [] fs;
+        if negb (paths_independent (map fst leaves)) then SSilent    (* one field addressed twice: order dependent *)
         else
           (fix dstruct (g : nat) (cur : str) (prefix : list nat) {struct g} : sres dval :=
              match g with
@@ -138,13 +174,11 @@ Fixpoint denote (fuel : nat) (te : tenv) (ty : gotype) (s : sx) : sres dval :=
                  sdo vals <- smap (fun x => x)
                    (mapi_aux (fun i fld =>
                       let p := prefix ++ [i] in
-                      match find (fun kv => match designates f te sn (fst kv) with
-                                            | Some q => path_eqb q p | None => false end) fs with
-                      | Some kv => denote f te (f_type fld) (snd kv)
-                      | None => if f_emb fld then match f_type fld with
-                                                  | TStruct s' => dstruct g' s' p
-                                                  | t => dzero f te t end
-                                else dzero f te (f_type fld)
+                      match find (fun pv => path_eqb (fst pv) p) leaves with
+                      | Some pv => denote f te (f_type fld) (snd pv)
+                      | None => match f_type fld with
+                                | TStruct s' => dstruct g' s' p
+                                | t => dzero f te t end
                       end) O (s_fields d));
                  SOk (DStruct cur vals)
                end
@@ -295,7 +329,11 @@ Fixpoint nodup_str (l : list str) : bool :=
   match l with [] => true | a :: r => negb (existsb (str_eqb a) r) && nodup_str r end.
 
 Definition wf_struct (fuel : nat) (te : tenv) (d : sdecl) : bool :=
-  nodup_str (map fst (jsonmap fuel te (s_name d) []))
+  (* the overwrite-map resolution of the code and the selector rule of the specification agree on every key
+     (a name clash is fine when the later, winning entry is also the shallower one) *)
+  forallb (fun k => match lookup_last k (jsonmap fuel te (s_name d) []), spec_find fuel te (s_name d) k with
+                    | Some p, Some q => path_eqb p q
+                    | _, _ => false end) (map fst (jsonmap fuel te (s_name d) []))
   && forallb (fun k => negb (nonname_key k)) (map fst (jsonmap fuel te (s_name d) []))
   && forallb (fun fld => negb (f_emb fld) || match f_type fld with TStruct _ => true | _ => false end) (s_fields d)
   && forallb (fun fld => match f_type fld with
